@@ -161,7 +161,7 @@ def main():
             for k, v in run.extra.get("counts", {}).items():
                 if k.startswith("require:"):
                     _, name, need = k.split(":")
-                    run.require(name, v, int(need))
+                    run.require(name, run.extra["counts"].get(name, 0), int(need))
         elif pid in PY_PROPS:
             mod = __import__(PY_PROPS[pid])
             mod.run(run, pid, tier, seed, replay)
